@@ -88,6 +88,9 @@ func gobEncodeItemOrLink(it LinkOrIRI) ([]byte, error) {
 }
 
 func gobEncodeItem(it Item) ([]byte, error) {
+	if IsNil(it) {
+		return []byte{}, nil
+	}
 	if IsIRI(it) {
 		if i, ok := it.(IRI); ok {
 			return []byte(i), nil
